@@ -359,7 +359,8 @@ def fix_ptm(molecule):
                                          val, format_atom_string(mol_node),
                                          type='change-atom')
                             mol_node[attr_name] = val
-            for n_idx in n_idxs:
+            # Atoms of these residues may have been removed in an earlier round.
+            for n_idx in n_idxs - removed:
                 node = molecule.nodes[n_idx]
                 if not ('modification' in node and ptm in node.get('modifications', [])):
                     # These nodes already had the modification annotated.
